@@ -70,6 +70,8 @@ def run(ctx):
     ctx.replay_vectors("MC_Codec", "MC_Codec.cfg", perform, "grid", classify, consts='CONSTANT Area = "sp"',
                        need_actions=("PickVector",))
     ctx.validate_events(events(ctx), "calls", classify)
+    from .. import repotests
+    repotests.codec_stage(ctx, "C01")       # the calls the repository's own tests make, judged by the specification
     ctx.exhaustive = False
     ctx.extra["exhaustive_subspaces"] = ["each 16-bit header word through unpack (3 x 65536)",
                                          "every APID through the constructor"] + (
